@@ -9,7 +9,7 @@ CONSTANTS
   IdPool = {"rId1", "rId3", "rId40"}
   NamePool = {"image0.png", "image2.png"}
   SlimDims = {"xrel", "mix", "sty", "sdef", "sref"}
-  SlimOps = {"AddHeading", "AddFootnote", "Reopen"}
+  SlimOps = {"AddHeading", "AddImage", "AddFootnote", "RemoveParagraphAt", "Reopen"}
   DimGroups = {}
 INVARIANTS Inv_All Inv_DetectParts Inv_DetectRels Inv_ShapeWellFormed
 PROPERTIES Act_Frame
